@@ -307,6 +307,21 @@ class Evaluator(object):
                 fr.returns.append((t, self.pc))
                 fr.return_envs.append(dict(env))
                 return None
+            if SPLIT_ITE_RETURNS and t.op == "ite" and (isinstance(st.value, ast.IfExp) or (isinstance(st.value, ast.Call) and t.id in getattr(self, "_inline_results", ()))):
+                # `return a if c else b` is `if c: return a` / `return b`: one return site per alternative
+                saved = self.pc
+                stack = [(t, ())]
+                while stack:
+                    x, extra = stack.pop(0)
+                    if x.op == "ite" and len(extra) < 4:
+                        stack.insert(0, (x.a[2], extra + (("if", x.a[0], False, "return"),)))
+                        stack.insert(0, (x.a[1], extra + (("if", x.a[0], True, None),)))
+                        continue
+                    self.pc = saved + extra
+                    s = self.site("return", st, term=x, value_node=st.value)
+                    self.summary.returns.append(s)
+                self.pc = saved
+                return None
             s = self.site("return", st, term=t, value_node=st.value)
             self.summary.returns.append(s)
             return None
@@ -531,8 +546,58 @@ class Evaluator(object):
                 return [tm.tup([tm.const(i), x]) for i, x in enumerate(inner)]
         return None
 
+    _ROW_REDUCERS = ("np.min", "np.max", "np.sum", "np.mean", "np.any", "np.all", "np.amin", "np.amax", "np.argmin", "np.argmax")
+    _ELEMENTWISE = ("np.abs", "np.absolute", "np.square", "np.exp", "np.sqrt", "np.around", "np.round", "np.fabs", "np.negative")
+
+    def _row_iteration(self, it, lid):
+        """for v in reduce(E(a[:, None] - b), axis=1)  is  for x in a: v = reduce(E(x - b)): (a, element term) or None"""
+        if it.op != "call" or tm.callee_name(it.a[0]) not in self._ROW_REDUCERS:
+            return None
+        args, kw = it.a[1], dict(it.a[2])
+        axis = kw.get("axis", args[1] if len(args) > 1 else None)
+        if not args or axis is None or not (tm.is_const(axis, 1) or tm.is_const(axis, -1)):
+            return None
+        E = args[0]
+        outers = []
+        ok = [True]
+
+        def scan(x, top):
+            if x.op == "call" and tm.callee_name(x.a[0]) == "np.subtract.outer" and len(x.a[1]) == 2:
+                outers.append(x)
+                return
+            if x.op == "bin" or x.op == "cmp":
+                scan(x.a[1], False)
+                scan(x.a[2], False)
+                return
+            if x.op == "un":
+                scan(x.a[1], False)
+                return
+            if x.op == "call" and tm.callee_name(x.a[0]) in self._ELEMENTWISE and x.a[1]:
+                scan(x.a[1][0], False)
+                for z in x.a[1][1:]:
+                    if any(y.op == "call" and tm.callee_name(y.a[0]) == "np.subtract.outer" for y in tm.walk(z)):
+                        ok[0] = False
+                return
+            if any(y.op == "call" and tm.callee_name(y.a[0]) == "np.subtract.outer" for y in tm.walk(x)):
+                ok[0] = False
+
+        scan(E, True)
+        if not ok[0] or len({o.id for o in outers}) != 1:
+            return None
+        o = outers[0]
+        a, b = o.a[1]
+        row = tm.binop("-", tm.mk("iter", a, lid), b)
+        elem_E = tm.rebuild(E, lambda z: row if z is o else None)
+        rest_kw = tuple((k, v) for k, v in it.a[2] if k != "axis")
+        elem = tm.call(it.a[0], (elem_E,), rest_kw)
+        return a, elem
+
     def for_stmt(self, st, env):
         it = self.ev(st.iter, env)
+        if isinstance(st.target, ast.Name):
+            rw = self._row_iteration(it, "L%d" % (self.nloops + 1))
+            if rw is not None:
+                return self._for_rows(st, env, rw[0], rw[1])
         elems = self._unroll_elements(it) if UNROLL else None
         if elems is not None and not st.orelse and not any(isinstance(n, (ast.Break, ast.Continue)) for n in _own_loop_nodes(st)):
             # a loop over a literal collection is its unrolling
@@ -543,6 +608,12 @@ class Evaluator(object):
                 if cur is None:
                     return None
             return cur
+        return self._for_core(st, env, it, None)
+
+    def _for_rows(self, st, env, a, elem):
+        return self._for_core(st, env, a, elem)
+
+    def _for_core(self, st, env, it, elem_override):
         self.nloops += 1
         lid = "L%d" % self.nloops
         self.summary.loops[lid] = (st, it)
@@ -558,7 +629,10 @@ class Evaluator(object):
         self.loopstack.append(ctx)
         saved = self.pc
         self.pc = saved + (("loop", lid, it),)
-        self.bind_iter(st.target, st.iter, it, lid, body_env, st)
+        if elem_override is not None:
+            self.assign(st.target, elem_override, body_env, st)
+        else:
+            self.bind_iter(st.target, st.iter, it, lid, body_env, st)
         out = self.run_keep_pc(st.body, body_env)
         self.pc = saved
         self.loopstack.pop()
@@ -1087,6 +1161,9 @@ class Evaluator(object):
         inl = self.try_inline(fn, args, kw, node, caller_env=env)
         if inl is not None:
             return inl
+        built = self._dict_of_zip(fn, args, kw, node)
+        if built is not None:
+            return built
         t = self.apply(fn, args, kw)
         callee = tm.callee_name(fn)
         self.site("call", node, callee=callee, fn=fn, base=None, args=args, kw=kw, term=t, via_filter=via_filter, method=None)
@@ -1180,6 +1257,31 @@ class Evaluator(object):
                 out.append(t)
         self.pc = saved
         return tm.ite(c, out[0], out[1])
+
+    def _dict_of_zip(self, fn, args, kw, node):
+        """OrderedDict(zip((k1, ..., kn), V)) / dict(zip(...)) with literal string keys is the container filled by
+        d[k1] = V[0]; ...; d[kn] = V[n-1]: the same stores are recorded, on an anonymous container."""
+        name = tm.callee_name(fn) if fn is not None else None
+        if name not in ("collections.OrderedDict", "builtins.dict") or len(args) != 1 or kw:
+            return None
+        z = args[0]
+        if not (z.op == "call" and tm.callee_name(z.a[0]) == "builtins.zip" and len(z.a[1]) == 2 and not z.a[2]):
+            return None
+        K, V = z.a[1]
+        if K.op not in ("tuple", "list") or not K.a or not all(k.op == "const" and isinstance(k.a[0], str) for k in K.a):
+            return None
+        if V.op in ("tuple", "list") and len(V.a) != len(K.a):
+            return None
+        self.n_anon = getattr(self, "n_anon", 0) + 1
+        root = "@dict%d" % self.n_anon
+        cur = self.apply(fn, (), ())
+        self.site("call", node, callee=name, fn=fn, base=None, args=(), kw=(), term=cur, via_filter=False, method=None)
+        for i, k in enumerate(K.a):
+            v = V.a[i] if V.op in ("tuple", "list") else tm.proj(V, i)
+            ms = self.site("mutate", node, how="setitem", old=cur, root=root, key=k, val=v, target=None)
+            cur = tm.upd(cur, "setitem", k, v)
+            ms.d["new"] = cur
+        return cur
 
     def try_inline(self, fn, args, kw, node, caller_env=None):
         """A call of a repo function that is not part of the reference inventory (a helper introduced after the
@@ -1303,6 +1405,10 @@ class Evaluator(object):
         keep = tuple(it for it in rets[-1][1][fr.base_len:] if it[0] == "if" and it[3] == "raise")
         self.pc = saved_pc + keep
         self.summary.inlined.append(q)
+        if result.op == "ite":
+            if not hasattr(self, "_inline_results"):
+                self._inline_results = set()
+            self._inline_results.add(result.id)
         return result
 
     def apply(self, fn, args, kw):
@@ -1328,6 +1434,7 @@ def _literal_of_node(node):
 
 
 UNROLL = True
+SPLIT_ITE_RETURNS = True
 
 
 def _params_written_in_place(g):
